@@ -17,6 +17,7 @@ import numpy
 from .common import check
 from .gen import rand_poly, nested, count
 from .model import MPoly, build, spec_model, from_ndpoly, same, describe, mono_key
+from .wf import double_through_a_view
 
 NAMES = tuple(f"q{i}" for i in range(13))
 SHAPES = [(), (1,), (2,), (3,), (1, 1), (2, 2), (1, 3), (2, 1, 2), (1, 2, 2)]
@@ -272,6 +273,29 @@ def denote_check(inp):
             return f"{what}(p) = {text!r:.300} denotes {describe(got)}, p is {describe(model)}"
     if numpoly.get_options() != before:
         return "global options not restored"
+    # the text denotes the polynomial the array holds NOW: double every coefficient in place through a view of the same memory
+    # (after str and repr have both been produced once) and read the text again
+    if spec["dtype"] != "bool" and p.size:
+        double_through_a_view(p)
+        doubled = numpy.empty(model.size, dtype=object)
+        for k, m in enumerate(model.reshape(-1)):
+            doubled[k] = m + m
+        doubled = doubled.reshape(model.shape)
+        for is_repr in (True, False):
+            what = "repr" if is_repr else "str"
+            if ambiguous(o, p.shape, is_repr):
+                continue
+            try:
+                text = printed(p, is_repr, o)
+                shape, elems = read(text, p.names, o["multiply"], o["exponent"], is_repr)
+            except Exception as e:      # noqa: BLE001
+                return f"{what}(p) after an in-place update: {type(e).__name__}: {str(e)[:150]}"
+            got = numpy.empty(len(elems), dtype=object)
+            for k, terms in enumerate(elems):
+                got[k] = sum(terms, MPoly())
+            if shape != tuple(p.shape) or not same(got.reshape(p.shape), doubled):
+                return (f"after every coefficient was doubled in place through the view p.T, {what}(p) = {text!r:.300} still denotes "
+                        f"{describe(got.reshape(shape) if shape == tuple(p.shape) else got)}; the array now holds {describe(doubled)}")
     return None
 
 
@@ -279,7 +303,8 @@ check("C16", "str_repr.denotes", gen_denote, functions=("numpoly.array_str", "nu
       note="bounded: all 8 display_graded/reverse/inverse settings x signs ('**','*'), ('^','·'), ('^',' '); int64 (incl. negative), "
            "float64 (incl. 1e-10, -1e+20, 0.1), complex128 (every sign combination of real/imaginary part, zeros), bool; 9 shapes of 0-3 "
            "dimensions, 1-4 terms, <=3 names from q0..q12, exponents <=11; str and repr (str of an array with the blank multiply sign is "
-           "skipped: no unique reading); text parsed by an independent reader and compared with the exact model")(denote_check)
+           "skipped: no unique reading); text parsed by an independent reader and compared with the exact model; then every "
+           "coefficient is doubled in place through the view p.T and both texts are read again (they denote what the array holds now)")(denote_check)
 
 
 # ------------------------------------------------------------------ order of the printed terms
@@ -366,10 +391,15 @@ def gen_sympy(tier, rng):
                 s = rand_poly(rng, shape=(), maxterms=rng.choice([1, 2, 4]), dtype=dtype, names_pool=NAMES,
                               pool=[-12, -3, -1, 0, 1, 2, 10] if dtype == "int64" else [-2.5, -1.0, -0.5, 0.0, 0.5, 1.0, 1.5, 0.125, 1024.0])
                 yield {"poly": s, "options": o}
+        # integer coefficients that no float64 holds exactly (a detour through floating point would change them)
+        for _ in range(count(tier, 4, 30)):
+            s = rand_poly(rng, shape=(), maxterms=rng.choice([1, 2, 3]), dtype="int64", names_pool=NAMES,
+                          pool=[2 ** 53 + 1, -(2 ** 53) - 1, 2 ** 62 + 3, 9007199254740993, -1, 1, 7])
+            yield {"poly": s, "options": o}
 
 
 @check("C16", "to_sympy.roundtrip", gen_sympy, functions=("numpoly.to_sympy", "numpoly.polynomial"),
-       note="bounded: 0-d polynomials, int64 and float64 (dyadic values, exact in any binary precision) coefficients, 1-4 terms, <=3 names "
+       note="bounded: 0-d polynomials, int64 (incl. values beyond 2**53 that float64 cannot hold) and float64 (dyadic values, exact in any binary precision) coefficients, 1-4 terms, <=3 names "
             "from q0..q12, exponents<=3; default exponent/multiply signs, the 8 order-flag settings; polynomial(to_sympy(p)) must denote p")
 def sympy_check(inp):
     import numpoly
